@@ -51,6 +51,20 @@ func (s *ExpressionListRewriter) hasNegationAncestor() bool {
 	return false
 }
 
+// hasAlternativeAncestor reports whether the node being visited sits below an OR or XOR. A relationship kind test may
+// only be moved into the match pattern when it is required by the whole WHERE clause, which is no longer the case once
+// it is one alternative among others.
+func (s *ExpressionListRewriter) hasAlternativeAncestor() bool {
+	for idx := len(s.descentStack) - 1; idx >= 0; idx-- {
+		switch s.descentStack[idx].(type) {
+		case *cypher.Disjunction, *cypher.ExclusiveDisjunction:
+			return true
+		}
+	}
+
+	return false
+}
+
 func (s *ExpressionListRewriter) popExpression() {
 	s.descentStack = s.descentStack[:len(s.descentStack)-1]
 }
@@ -131,7 +145,7 @@ func (s *ExpressionListRewriter) Exit(node cypher.SyntaxNode) {
 		if variable, typeOK := typedNode.Reference.(*cypher.Variable); !typeOK {
 			s.SetErrorf("expected a variable as the reference for a kind matcher but received: %T", node)
 		} else if variable.Symbol == query.EdgeSymbol {
-			if s.hasNegationAncestor() {
+			if s.hasNegationAncestor() || s.hasAlternativeAncestor() {
 				return
 			}
 
